@@ -1412,6 +1412,9 @@ func (pc ParseContext) compileTuple(ctx context.Context, b ast.Branch, c ast.Chi
 				}
 			}
 
+			if pair.One("v") == nil {
+				return nil, fmt.Errorf("... is only allowed in a tuple pattern: %s", pair.Scanner())
+			}
 			v, err := pc.CompileExpr(ctx, pair.One("v").(ast.Branch))
 			if err != nil {
 				return nil, err
